@@ -355,7 +355,11 @@ def framing(ctx, bw, rd):
             for c in o0.calls:
                 if call_matches(c, ['Index::index', 'Index<I>>::index', 'index::Index<I>>::index']):
                     rng |= origin(fl, c['args'][1]).fields
-            h_ok = 'block_header_buffer' in o0.fields and bool(rng) and 'nz_get' in ''.join(sorted(set().union(*[origin(fl, c['args'][1]).flags for c in o0.calls if call_matches(c, ['Index::index', 'Index<I>>::index', 'index::Index<I>>::index'])] or [set()])))
+            ros = [origin(fl, c['args'][1]) for c in o0.calls if call_matches(c, ['Index::index', 'Index<I>>::index', 'index::Index<I>>::index'])]
+            # (the pending size is a NonZeroUsize read with get(), or a plain usize with 0 standing for "nothing pending")
+            h_ok = 'block_header_buffer' in o0.fields and bool(rng) and \
+                ('nz_get' in ''.join(sorted(set().union(*[r_.flags for r_ in ros] or [set()]))) or
+                 ('block_header_size' in rng and not any(r_.has_arith() for r_ in ros) and all(any(a[0] == 'agg' and a[1].endswith('RangeTo') for a in r_.atoms) for r_ in ros)))
             d_ok = any(cname(c).endswith('compressed_block') for c in o1.calls)
             s_ok = 'sync_marker' in o2.fields
             ok = h_ok and d_ok and s_ok
